@@ -15,12 +15,15 @@
    the compiler must answer with output or a diagnostic, never a crash or hang.
    gcc -E -P is the tie-break oracle (BUILDER_GUIDE 1.4).
 """
-import json, os, re, subprocess
+import glob, json, os, re, subprocess, threading
 import vt, ppcase, pptok
 from vt import Infra
 
+_LOCK = threading.Lock()
+
 # family -> (number of cases, quick stride, thorough stride); strides are primes that do not divide the radices
-FAMS = {"F1": (131760, 127, 1), "F2": (44376, 53, 1), "F3": (6615, 11, 1), "F4": (8077, 7, 1), "F5": (21, 1, 1), "F6": (26, 1, 1)}
+FAMS = {"F1": (140544, 127, 1), "F2": (44376, 53, 1), "F3": (6615, 11, 1), "F4": (8077, 7, 1), "F5": (21, 1, 1), "F6": (26, 1, 1),
+        "F7": (36980, 47, 1)}
 
 EXTRAS = [   # closed hand-written list: expansion next to directives, shape of the remaining predefined dynamic macros
     ("emptyexp-then-directive", "#define E\nx E\n#define Y 1\nY\n", ["x", "1"]),
@@ -36,8 +39,26 @@ SHAPES = [("__DATE__", r'"[A-Z][a-z][a-z] [ 0-9][0-9] [0-9]{4}"'), ("__TIME__", 
           ("__BASE_FILE__", None)]
 
 
+def tlc_full(ctx, module, cfg, **kw):
+    """ctx.tlc, insisting that a run without error explored the whole graph.  Under heavy machine load TLC
+    was seen to stop right after the initial states with exit 0 (`N states left on queue`); such a run
+    proves nothing, so it is repeated (and is an infrastructure error if it keeps happening)."""
+    count = kw.pop("count", True)
+    for attempt in range(3):
+        if attempt and kw.get("env", {}).get("OUT") and os.path.exists(kw["env"]["OUT"]):
+            os.unlink(kw["env"]["OUT"])
+        res = ctx.tlc("pp", module, cfg, count=False, **kw)
+        if not res.ok or ("Model checking completed" in res.out and res.left == 0):
+            if count:
+                with _LOCK:                       # several TLC jobs run in threads: keep the sums exact
+                    ctx.cov["states"] += res.distinct
+                    ctx.cov["transitions"] += res.generated
+            return res
+    raise Infra("TLC stopped early three times on %s %s:\n%s" % (module, cfg, res.out[-1500:]))
+
+
 def run_gen(ctx, fam, cfg, out, workers, timeout=1500):
-    g = ctx.tlc("pp", "Macro", cfg, env=dict(OUT=out), workers=workers, timeout=timeout, heap="6g")
+    g = tlc_full(ctx, "Macro", cfg, env=dict(OUT=out), workers=workers, timeout=timeout, heap="6g")
     if not g.ok:
         p = ctx.replay_dir("tlc-Macro-%s" % fam)
         open(p + "/counterexample.txt", "w").write(g.trace_text())
@@ -47,6 +68,17 @@ def run_gen(ctx, fam, cfg, out, workers, timeout=1500):
     if not recs:
         raise Infra("generator wrote nothing for family %s" % fam)
     return ppcase.group(recs)
+
+
+def expect_ok(ctx, module, cfg, what, **kw):
+    res = tlc_full(ctx, module, cfg, **kw)
+    if not res.ok:
+        p = ctx.replay_dir("tlc-%s-%s" % (module, os.path.basename(cfg)))
+        open(p + "/counterexample.txt", "w").write(res.trace_text())
+        json.dump(dict(kind="tlc", area="pp", module=module, cfg=open(cfg if os.path.isabs(cfg) else os.path.join(vt.TLA, "pp", cfg)).read()),
+                  open(p + "/case.json", "w"))
+        ctx.report("tlc:%s:%s:%s" % (module, re.sub(r"-\d+", "", os.path.basename(cfg)), res.violated), what, p)
+    return res
 
 
 def expected(c, res):
@@ -67,15 +99,18 @@ def judge(ctx, chib, gcc, c, res, prop="C09"):
     feats = "+".join(ppcase.features(c))
     info = dict(kind="case", case=c)
     if res["rc"] == "timeout":
-        ctx.report("timeout:%s:%s" % (feats, c["fam"]), "%s: chibicc -E did not terminate within %ss" % (key, chib.timeout), case=info)
+        res = chib.run_one(c, timeout=4 * chib.timeout)       # a rejection must repeat (loaded machine)
+    if res["rc"] == "timeout":
+        ctx.report("timeout:%s:%s" % (feats, c["fam"]), "%s: chibicc -E did not terminate within %ss" % (key, 4 * chib.timeout), case=info)
         return False
     if isinstance(res["rc"], int) and res["rc"] < 0 or (res["rc"] not in (0, 1)):
         ctx.report("crash:%s:%s" % (feats, c["fam"]), "%s: chibicc -E died with status %s" % (key, res["rc"]), case=info)
         return False
+    if res["rc"] == 1 and not re.search(r"\S", res["err"]):
+        # the driver maps a dead cc1 (signal, or memory limit hit by an endless expansion) to a silent exit 1
+        ctx.report("crash:%s:%s" % (feats, c["fam"]), "%s: chibicc -E failed without a diagnostic (crash or runaway expansion)" % key, case=info)
+        return False
     if c["class"] != "ok":
-        if res["rc"] == 1 and not res["err"].strip():
-            ctx.report("crash:%s:%s" % (feats, c["fam"]), "%s: chibicc -E failed without a diagnostic" % key, case=info)
-            return False
         return True
     outs = expected(c, res)
     if res["rc"] == 0 and res["toks"] is not None and matches(c, res["toks"], outs):
@@ -106,7 +141,7 @@ def replay_cases(ctx, chib, gcc, cases, prop="C09"):
     ok = [c for c in cases if c["class"] == "ok" and c["fam"] != "F6"]
     single = [c for c in cases if c["class"] == "ok" and c["fam"] == "F6"]
     diag = [c for c in cases if c["class"] == "diag"]
-    diag = vt.subsample(diag, ctx.seed, 5 if ctx.quick else 3)
+    diag = vt.subsample(diag, ctx.seed, 5 if ctx.quick else 7)
     res = chib.run_cases(ok)
     res.update(chib.run_cases(single + diag, single=True))
     n = 0
@@ -138,24 +173,88 @@ def run_extras(ctx, chib):
     ctx.cov["traces_validated_against_impl"] += len(EXTRAS) + len(SHAPES)
 
 
-def model_check(ctx, workers):
+def model_jobs(ctx):
+    """the exhaustive checks of the machine itself, as independent TLC jobs"""
     q = ctx.quick
+    jobs = []
     # every order of argument pre-expansion; the functional definition; the standard's examples
-    for fam, stride in (("F5", 1), ("F3", 29 if q else 3), ("F4", 41 if q else 5), ("F2", 211 if q else 23)):
+    for fam, stride in (("F5", 1), ("F3", 29 if q else 3), ("F4", 41 if q else 5), ("F2", 211 if q else 23),
+                        ("F1", 997 if q else 53), ("F7", 307 if q else 29)):
         cfg = ctx.cfg("pp", "Macro_mc.cfg", Family='"%s"' % fam, Stride=stride, Seed=ctx.seed % stride)
-        ctx.tlc_expect_ok("pp", "Macro", cfg, "Macro.tla (Prosser machine) violates an invariant on family " + fam, workers=workers, heap="6g")
+        jobs.append(("mc", cfg, "Macro.tla (Prosser machine) violates an invariant on family " + fam))
     # liveness under weak fairness on a small configuration
-    cfg = ctx.cfg("pp", "Macro_live.cfg", Family='"F5"')
-    ctx.tlc_expect_ok("pp", "Macro", cfg, "Macro.tla: some behaviour never finishes (F5)", workers=workers, heap="6g")
+    jobs.append(("mc", ctx.cfg("pp", "Macro_live.cfg", Family='"F5"'), "Macro.tla: some behaviour never finishes (F5)"))
     # sensitivity control: without the macro's own name in the hide set the machine must loop
-    cfg = ctx.cfg("pp", "Macro_mc.cfg", Family='"F5"', HideFix=False)
-    ctl = ctx.tlc("pp", "Macro", cfg, workers=workers, count=False, heap="6g")
-    if ctl.ok:
-        raise Infra("sensitivity control failed: TLC accepts the machine without hide sets")
+    jobs.append(("control", ctx.cfg("pp", "Macro_mc.cfg", Family='"F5"', HideFix=False), None))
+    return jobs
+
+
+def run_model_job(ctx, job, workers):
+    kind, cfg, what = job
+    if kind == "mc":
+        expect_ok(ctx, "Macro", cfg, what, workers=workers, heap="6g")
+    else:
+        ctl = tlc_full(ctx, "Macro", cfg, workers=workers, count=False, heap="6g")
+        if ctl.ok:
+            raise Infra("sensitivity control failed: TLC accepts the machine without hide sets\n" + ctl.out[-1500:])
+
+
+def trace_validation(ctx, tree, cases):
+    """Hook H3 (proposed/C09/hook-H3-expand-macro.diff): every expansion event of real runs must be a
+    step of the machine (MacroTrace.tla).  Without the hook in the tree there are no events: skipped."""
+    d = ctx.tmp("h3")
+    texts = []
+    ok = [c for c in cases if c["class"] == "ok" and c["fam"] in ("F2", "F3", "F5", "F7")]
+    for i in range(0, min(len(ok), 600), 60):
+        f = os.path.join(d, "gen%d.c" % i)
+        open(f, "w").write("".join(ppcase.render_case(c)[0] for c in ok[i:i + 60]))
+        texts.append(f)
+    srcs = [tree + "/test/macro.c"] + sorted(glob.glob(tree + "/*.c"))[:(2 if ctx.quick else 99)]
+
+    def rec(src):
+        tf = os.path.join(d, os.path.basename(src) + ".trace")
+        env = dict(os.environ, CHIBICC_VERIF_TRACE=tf)
+        rc = ppcase.run_limited([tree + "/chibicc", "-I" + tree + "/include", "-I" + tree + "/test", "-I" + tree, "-E", "-o", "/dev/null", src],
+                                60, env=env)[0]
+        if rc == "timeout":
+            return None
+        return tf if os.path.exists(tf) else None
+    evs, nproc = [], 0
+    for tf in vt.pmap(rec, texts + srcs):
+        if not tf:
+            continue
+        bypid = {}
+        for r in vt.read_ndjson(tf):
+            if r.get("e") == "exp":
+                bypid.setdefault(r["pid"], []).append(r)
+        for pid in sorted(bypid):
+            evs.append(dict(e="reset", src=os.path.basename(tf)))
+            for r in sorted(bypid[pid], key=lambda r: r["seq"]):
+                evs.append(dict(e="exp", k=r["k"], m=r["m"], hin=r.get("hin", []), hrp=r.get("hrp", []), hout=r.get("hout", [])))
+            nproc += 1
+    if not evs:
+        ctx.cov["h3_trace_validation"] = "hook H3 not present in the tree under test: skipped"
+        return
+    tf = os.path.join(ctx.scratch, "h3.ndjson")
+    vt.write_ndjson(tf, evs)
+    res = ctx.tlc("pp", "MacroTrace", "MacroTrace.cfg", env=dict(TRACE=tf), workers=1, timeout=600)
+    if not (res.ok and res.depth == len(evs) + 1):
+        res2 = ctx.tlc("pp", "MacroTrace", "MacroTrace.cfg", env=dict(TRACE=tf), workers=1, timeout=600, count=False)
+        if res2.depth != res.depth:
+            raise Infra("trace validation not reproducible (%d vs %d)" % (res.depth, res2.depth))
+        bad = evs[res.depth - 1] if res.depth - 1 < len(evs) else None
+        p = ctx.replay_dir("trace-h3")
+        os.replace(tf, p + "/trace.ndjson")
+        json.dump(dict(kind="trace", matched=res.depth - 1, rejected_event=bad), open(p + "/case.json", "w"), indent=1)
+        ctx.report("trace:h3:%s:hide-set-not-prosser" % (bad or {}).get("k"),
+                   "expansion event %d of %d is not a step of the machine: %s" % (res.depth, len(evs), bad), p)
+    ctx.cov["traces_validated_against_impl"] += nproc
+    ctx.cov["h3_trace_events"] = len(evs)
+    ctx.cov["h3_trace_validation"] = "%d processes" % nproc
 
 
 def tools(ctx, tree):
-    chib = ppcase.Runner(ctx, "chibicc", [tree + "/chibicc", "-E"], timeout=10)
+    chib = ppcase.Runner(ctx, "chibicc", [tree + "/chibicc", "-E"], timeout=5)
     gcc = ppcase.Runner(ctx, "gcc", ["cc", "-E", "-P", "-w"], timeout=20)
     return chib, gcc
 
@@ -170,14 +269,18 @@ def run(ctx):
         stride = qs if q else ts
         cfg = ctx.cfg("pp", "Macro_gen.cfg", Family='"%s"' % fam, Stride=stride, Seed=ctx.seed % stride)
         jobs.append((fam, cfg, cfg[:-4] + ".ndjson"))
-    big = {"F1": 6, "F2": 4}
-    # generation (one TLC per family, in parallel) next to the exhaustive checks of the machine itself
+    big = {"F1": 6, "F2": 4, "F7": 4}
+    cap = int(os.environ.get("VERIF_TLC_CAP", "0"))       # development aid on a shared machine: fewer TLC threads
+    # generation (one TLC per family, a few at a time) next to the exhaustive checks of the machine itself
     def gen(j):
-        return run_gen(ctx, j[0], j[1], j[2], workers=(2 if q else big.get(j[0], 2)))
-    def mc(_):
-        model_check(ctx, 2 if q else 4)
+        return run_gen(ctx, j[0], j[1], j[2], workers=min(cap or 99, 2 if q else big.get(j[0], 2)))
+    mjobs = model_jobs(ctx)
+
+    def mc(j):
+        run_model_job(ctx, j, min(cap or 99, 2))
         return None
-    results = vt.pmap(lambda t: t[0](t[1]), [(gen, j) for j in jobs] + [(mc, None)], workers=8)
+    results = vt.pmap(lambda t: t[0](t[1]), [(gen, j) for j in jobs] + [(mc, j) for j in mjobs],
+                      workers=(2 if cap else 8 if q else 4))
     ctx.phase("tlc done")
     total = 0
     for (fam, cfg, out), cases in zip(jobs, results[:len(jobs)]):
@@ -192,6 +295,8 @@ def run(ctx):
             ctx.sample(dict(family=fam, id=c["id"], input=ppcase.render_case(c)[0], expected=" ".join(c["outs"][0]), flags=c["flags"]))
         ctx.phase("replayed " + fam)
     run_extras(ctx, chib)
+    trace_validation(ctx, tree, [c for cs in results[:len(jobs)] for c in cs])
+    ctx.phase("traces done")
     # the tokenizer that judged: spot-validation against Lexer.tla (the whole domain is validated by C19)
     ctx.assumptions += [
         "harness tokenizer (pptok.py) is validated against Lexer.tla on the complete pair/triple domain by check C19",
@@ -220,6 +325,8 @@ def replay(ctx, path):
         r = chib.run_one(case)
         ctx.note_case("replay")
         judge(ctx, chib, gcc, case, r)
+    elif c.get("kind") == "trace":
+        print("re-validate with: TRACE=%s/trace.ndjson tlc -workers 1 -config MacroTrace.cfg MacroTrace.tla (in tla/pp)" % path)
     elif c.get("kind") == "extra":
         global EXTRAS
         EXTRAS = [e for e in EXTRAS if e[0] == c["name"]]
